@@ -102,8 +102,6 @@ def build(struct, leaves):
         return MDOAdditiveChain(subs, sorted(struct[2]), use_threading=True, n_processes=1)
     if kind == "mdachain":
         return MDAChain(subs, chain_linearize=True)
-    if kind == "mdachain_adjoint":
-        return MDAChain(subs, chain_linearize=False)
     if kind == "mdachain_parallel":
         return MDAChain(subs, chain_linearize=True, mdachain_parallelize_tasks=True,
                         mdachain_parallel_settings={"use_threading": True, "n_processes": 1})
